@@ -874,11 +874,18 @@ func (n *FuncType) String() string {
 		if i > 0 {
 			s += ", "
 		}
+		if n.IsVariadic && i == len(n.Parameters)-1 && param.Type != nil {
+			if param.Ident != nil {
+				s += param.Ident.Name + " "
+			}
+			s += "..." + param.Type.String()
+			continue
+		}
 		s += param.String()
 	}
 	s += ")"
 	if len(n.Result) > 0 {
-		if n.Result[0].Ident == nil {
+		if len(n.Result) == 1 && n.Result[0].Ident == nil {
 			s += " " + n.Result[0].Type.String()
 		} else {
 			s += " ("
